@@ -13,9 +13,10 @@ def sig(ev, d):
     f = ev.get("frame", [])
     L = (((f[1] & 3) << 8) | f[2]) if len(f) >= 3 else -1
     p, w = ev.get("plain", {}), ev.get("with", {})
-    diff = sorted(k for k in set(p) | set(w) if p.get(k) != w.get(k))
-    return "Sfx payload_len=%s sfx_len=%d differing=%s num_plain=%s num_with=%s" % (
-        "0/1" if L in (0, 1) else ("2" if L == 2 else ">2"), min(len(ev.get("sfx", [])), 2), diff, p.get("num") if L < 2 else "*", w.get("num") if L < 2 else "*")
+    diff = sorted(k for k in set(p) | set(w) if p.get(k) != w.get(k) and k not in ("msg_digest", "msg_carried"))
+    big = len(ev.get("sfx", [])) + len(f) >= 65536
+    return "Sfx payload_len=%s big_buffer=%s plain_out=%s with_out=%s differing=%s" % (
+        "0/1" if L in (0, 1) else ">=2", big, p.get("out"), w.get("out"), diff)
 
 
 def run(chk):
